@@ -570,6 +570,32 @@ static void overflowProbe(long k)
     threw2 = true;
   }
   VH_CHECK(threw2, "C15:BufferReader:view-size-overflow-not-rejected", "a view far larger than the buffer was handed out (cursor + size wrapped around)", desc);
+  // the write side: something written already (cursor > 0), then a size that wraps cursor + size
+  {
+    FixedBufferWriter fw(n);
+    size_t pre = 1 + r.below(n);  // 1 .. n bytes already in the buffer
+    fw.write(data.data(), pre);
+    size_t hugeW     = (size_t)-1 - pre + 1 + r.below(pre);  // SIZE_MAX - cursor + 1 .. SIZE_MAX: every one wraps
+    std::string wdesc = "#" + std::to_string(k) + " FixedBufferWriter(" + std::to_string(n) + ") cursor=" + std::to_string(pre) + " size=" + std::to_string(hugeW);
+    size_t availBefore = fw.available();
+    bool threwW = false;
+    try {
+      fw.write(0, hugeW);  // mem == null: nothing is copied even if the check is passed
+    } catch (const std::exception &) {
+      threwW = true;
+    }
+    VH_CHECK(threwW, "C15:FixedBufferWriter:write-size-overflow-not-rejected", "a write far larger than the buffer was accepted (cursor + size wrapped around); available() went from " + std::to_string(availBefore) + " to " + std::to_string(fw.available()), wdesc);
+    FixedBufferWriter fr(n);
+    fr.write(data.data(), pre);
+    bool threwR = false;
+    try {
+      (void)fr.reserve(hugeW);
+    } catch (const std::exception &) {
+      threwR = true;
+    }
+    VH_CHECK(threwR, "C15:FixedBufferWriter:reserve-size-overflow-not-rejected", "a reservation far larger than the buffer was accepted (cursor + size wrapped around); available() is now " + std::to_string(fr.available()), wdesc);
+    vh::count("writer_overflow_probes");
+  }
   vh::count("overflow_probes");
   vh::evaluated(vh::hash64(991, huge), true);
 }
